@@ -322,14 +322,17 @@ pub fn multi_finish(_args: &[String]) -> String {
     std::panic::set_hook(Box::new(|_| {}));
     let mut tried = 0u64;
     let perms: [[usize; 3]; 6] = [[0, 1, 2], [0, 2, 1], [1, 0, 2], [1, 2, 0], [2, 0, 1], [2, 1, 0]];
+    for wide in [false, true] {
     for fp in perms {
         for dp in perms {
             let term = InMemoryTerm::new(H, W as u16);
             let mp = MultiProgress::with_draw_target(ProgressDrawTarget::term_like(Box::new(term.clone())));
+            // `wide`: every bar is wider than the terminal and wraps onto a second row
+            let pad = if wide { " wider than the terminal, it wraps around" } else { "" };
             let mut bars: Vec<Option<ProgressBar>> = (0..3).map(|i| {
                 let pb = mp.add(ProgressBar::new(10));
                 pb.set_style(ProgressStyle::with_template("{msg} {pos}/{len}").unwrap());
-                pb.set_message(format!("bar{}", i));
+                pb.set_message(format!("bar{}{}", i, pad));
                 Some(pb)
             }).collect();
             let mut hist = vec!["three bars".to_string()];
@@ -343,12 +346,13 @@ pub fn multi_finish(_args: &[String]) -> String {
             }
             drop(mp);
             tried += 1;
-            let want = "bar0 10/10\nbar1 10/10\nbar2 10/10";
+            let want: String = (0..3).flat_map(|i| wrap(&format!("bar{}{} 10/10", i, pad))).collect::<Vec<_>>().join("\n");
             let got = term.contents();
             if got != want {
-                return report("C04 visibly finished bars of a MultiProgress keep their final rendering, in order, after all bars are dropped", &hist, want, &got, "multi_finish");
+                return report("C04 visibly finished bars of a MultiProgress keep their final rendering (all wrapped rows), in order, after all bars are dropped", &hist, &want, &got, "multi_finish");
             }
         }
+    }
     }
     format!("{{\"found\": false, \"tried\": {}}}", tried)
 }
